@@ -757,7 +757,7 @@ theorem invFF_step (H : Nat → Nat) (s : St) (L : List (Bid × Nat)) (p : Pid) 
         rw [← hstep]; exact stepPc_notEX H fx pr.prog exO shO s.g pr.pc hnEX hblk
       have hrepo : res.1.repo = s.g.repo ∨ (s.g.repo = .absent ∧ res.1.repo = .torn) := by
         rw [← hstep]
-        rcases stepPc_repo H fx pr.prog exO shO s.g pr.pc with h | ⟨hq, hx, hy, _⟩ | ⟨hq, _⟩ | hq | ⟨_, ha, _, ht⟩ |
+        rcases stepPc_repo H fx pr.prog exO shO s.g pr.pc with h | ⟨hq, hx, hy, _⟩ | ⟨hq, _⟩ | hq | ⟨_, ha, ht⟩ |
             ⟨l, t, f, hq⟩ | ⟨l, r, hq⟩ | ⟨rm, plan, t, d, te, hq⟩
         · exact Or.inl h
         · exact absurd ⟨hq, hx, hy⟩ h2
